@@ -269,8 +269,34 @@ API_SCENARIOS = [
 ]
 
 
+def number_text_scenarios():
+    """unsuffixed and suffixed number texts at and beyond the boundaries of every integer type (and of u64 / i64, where
+    the scanner's own limits are), at top level and nested: accepted iff the number is a value of the type, and then
+    it denotes exactly that number"""
+    out = []
+    types = {"u8": (0, 2**8 - 1), "u16": (0, 2**16 - 1), "u32": (0, 2**32 - 1), "u64": (0, 2**64 - 1), "usize": (0, 2**32 - 1),
+             "i8": (-2**7, 2**7 - 1), "i16": (-2**15, 2**15 - 1), "i32": (-2**31, 2**31 - 1), "i64": (-2**63, 2**63 - 1)}
+    for t, (lo, hi) in types.items():
+        bits = {"u8": 8, "u16": 16, "u32": 32, "u64": 64, "usize": 32, "i8": 8, "i16": 16, "i32": 32, "i64": 64}[t]
+        cands = sorted({lo - 1, lo, lo + 1, -1, 0, 1, hi - 1, hi, hi + 1, 2**63 - 1, 2**63, 2**63 + 1, 2**64 - 1, -2**63, -2**63 - 1})
+        for n in cands:
+            for text in (str(n), f"{n}{t}"):
+                ok = lo <= n <= hi
+                want = f'(ok "{n}" {bits}) (ok "true" 1) (out "{n}")' if ok else "(err)"
+                out.append((f"num-{t}-{text}", f"pub fn main(x: {t}, d: bool) -> {t} {{ x }}", [],
+                            [(0, text), (1, "true")] if ok else [(0, text)], want))
+            ok = lo <= n <= hi
+            want = f'(ok "(true, [1, {n}])" {1 + 2 * bits}) (ok "true" 1) (out "(true, [1, {n}])")' if ok else "(err)"
+            out.append((f"num-nested-{t}-{n}", f"pub fn main(x: (bool, [{t}; 2]), d: bool) -> (bool, [{t}; 2]) {{ x }}", [],
+                        [(0, f"(true, [1, {n}])"), (1, "true")] if ok else [(0, f"(true, [1, {n}])")], want))
+    return out
+
+
 def api_scenarios(ck):
     jobs = []
+    global API_SCENARIOS
+    if not any(x[0].startswith("num-") for x in API_SCENARIOS):
+        API_SCENARIOS = API_SCENARIOS + number_text_scenarios()
     for name, src, exts, args, _ in API_SCENARIOS:
         jobs.append("(litapi %s (src %s) %s %s)" % (
             name, quote(src), " ".join('(ext %s %s %s %d)' % (quote(p), quote(n), t, v) for p, n, t, v in exts),
